@@ -320,7 +320,7 @@ fn run_layout(e: &Entry, args: &Args) -> LayoutResult {
     }
 
     let pl = plan(&ctx, e, prop);
-    let needs_fields = !matches!(prop, "C06" | "C13");
+    let needs_fields = !matches!(prop, "C06" | "C13" | "C19");
     if pl.kinds.is_empty() || (needs_fields && pl.elig.is_empty()) {
         res.skipped = true;
         finish(&mut res, acc);
